@@ -453,6 +453,15 @@ def nl_mul(a, b):
     m = _MUL(a, b)
     key = ("mul", m.get_id())
     if key not in c.nl_seen:
+        # products sharing a factor are monotone in the other one
+        for k2, (kk, a2, b2, m2) in list(c.nl_seen.items()):
+            if kk != "mul":
+                continue
+            for (x, y, x2, y2) in ((a, b, a2, b2), (a, b, b2, a2), (b, a, a2, b2), (b, a, b2, a2)):
+                if y.get_id() == y2.get_id():
+                    c.add(z3.Implies(z3.And(y >= 0, x <= x2), m <= m2), z3.Implies(z3.And(y >= 0, x >= x2), m >= m2),
+                          z3.Implies(z3.And(y <= 0, x <= x2), m >= m2), z3.Implies(z3.And(y <= 0, x >= x2), m <= m2))
+                    break
         c.nl_seen[key] = ("mul", a, b, m)
         c.add(z3.Implies(z3.Or(a == 0, b == 0), m == 0),
               z3.Implies(z3.And(a > 0, b > 0), m > 0), z3.Implies(z3.And(a < 0, b < 0), m > 0),
@@ -473,6 +482,11 @@ def nl_div(a, b):
     d = _DIV(a, b)
     key = ("div", d.get_id())
     if key not in c.nl_seen:
+        # quotients over the same denominator are monotone in the numerator
+        for k2, (kk, a2, b2, d2) in list(c.nl_seen.items()):
+            if kk == "div" and b2.get_id() == b.get_id():
+                c.add(z3.Implies(z3.And(b > 0, a <= a2), d <= d2), z3.Implies(z3.And(b > 0, a >= a2), d >= d2),
+                      z3.Implies(z3.And(b < 0, a <= a2), d >= d2), z3.Implies(z3.And(b < 0, a >= a2), d <= d2))
         c.nl_seen[key] = ("div", a, b, d)
         c.add(z3.Implies(a == 0, d == 0), z3.Implies(z3.And(a > 0, b > 0), d > 0), z3.Implies(z3.And(a < 0, b > 0), d < 0),
               z3.Implies(z3.And(a > 0, b < 0), d < 0), z3.Implies(z3.And(a < 0, b < 0), d > 0), z3.Implies(a == b, d == 1),
